@@ -171,6 +171,8 @@ pub fn run_case(case: &Case) -> Outcome {
         o.nontrivial = true;
         let (xs2, ys2): (Vec<f64>, Vec<C64>) = match case.invalid {
             1 => (xs[..1].to_vec(), ys[..1].to_vec()),
+            // no points at all
+            8 => (vec![], vec![]),
             2 => (xs.clone(), ys[..nk - 1].to_vec()),
             // more ordinates than knots (one more / three more), fewer knots than ordinates
             5 => (xs.clone(), ys.iter().cloned().chain(std::iter::once(ys[0])).collect()),
@@ -397,7 +399,7 @@ fn strategy(t: Tier) -> BoxedStrategy<Case> {
         (val(), val()),
         prop_oneof![3 => Just(false), 1 => Just(true)],
         (prop_oneof![2 => gen::logu(-14.0, -10.0), 2 => gen::logu(-10.0, -4.0), 1 => gen::logu(-4.0, 0.0)], prop_oneof![3 => Just(0.0), 2 => gen::fl(-9.0, 3.0), 1 => gen::fl(-40.0, -9.0)], [cexp(), cexp(), cexp(), cexp()]),
-        prop_oneof![20 => Just(0u8), 2 => 1u8..=4, 1 => 5u8..=7],
+        prop_oneof![20 => Just(0u8), 2 => 1u8..=4, 1 => 5u8..=8],
     )
         .prop_map(|(complex, clamped, x0, mut hs, ys, slopes, sampled, (tol, yscale_exp, ce), invalid)| {
             let coef_exp = [0.0, 0.0, ce[2], ce[2] + ce[3]];
@@ -419,14 +421,14 @@ pub fn run(opts: &Opts) -> i32 {
     for clamped in [false, true] {
         for complex in [false, true] {
             spec.enumerated.push(Case { complex, clamped, x0: 0.0, hs: vec![1.0, 1.0, 1.0], ys: vec![(1.0, 0.5), (std::f64::consts::E, 1.0), (7.38905609893065, -1.0), (20.085536923187668, 0.0)], slopes: ((1.0, 0.0), (20.085536923187668, 0.0)), sampled: false, tol: 1e-12, yscale_exp: 0.0, coef_exp: [0.0; 4], invalid: 0 });
-            for invalid in 1..=7u8 {
+            for invalid in 1..=8u8 {
                 spec.enumerated.push(Case { complex, clamped, x0: -1.0, hs: vec![0.5, 1.5], ys: vec![(1.0, 0.5), (2.0, 1.0), (0.0, -1.0)], slopes: ((1.0, 0.0), (-1.0, 0.5)), sampled: false, tol: 1e-12, yscale_exp: 0.0, coef_exp: [0.0; 4], invalid });
             }
         }
     }
     spec.cases = opts.tier.pick(150_000, 4_000_000);
     spec.essential = vec![("free", 0.3), ("clamped", 0.3), ("complex", 0.3), ("sampled", 0.15), ("invalid", 0.05), ("y-scaled", 0.3), ("loose-polynomial-tolerance", 0.3), ("tolerance-above-knot-spacing", 0.03)];
-    spec.rule = "generated: 2-40 knots, spacings 10^[-1.7,0] (ratio <= 50; one case in eight evenly spaced with h = 1, 1/2, 1/8 or arbitrary) inside [-10,10], real and complex ordinates in [-3,3] times a common factor 1, 10^[-9,3] or 10^[-40,-9] (the spline is linear in the ordinates: no absolute threshold may enter) (or samples of a random cubic for clamped / line for free whose coefficients carry individual factors 10^[-8,0]: gently curved data), random end slopes; one case in sixteen has exactly collinear ordinates on an evenly spaced dyadic grid with end slopes that agree with the line at neither, one or both ends; polynomial zero-tolerance argument 10^[-14,0] (a fifth of the cases above 1e-4, i.e. also larger than the smallest knot spacing) (the oracle gives it no allowance: it must not move the spline); invalid: < 2 points, mismatched lengths (ordinates one short, one or three too many, one knot short), a decreasing knot pair, evaluation outside the range. Oracle: independent spline from a dense LU solve of the second-derivative system; on every interval values and slopes at both end knots (from inside) and 8 interior points within 64 eps (K(x) + g h^2), K the magnitude of the terms of the piece expanded in powers of x, g the decayed rounding scale of the second derivatives,, interpolation, continuity of the recovered second derivative across knots, zero end curvature (free) / prescribed end slopes (clamped), cubic/line reproduction; Err outside the range (evaluate and evaluate_derivative probed separately, both sides) and for the invalid class. Non-trivial = >= 4 knots with non-uniform spacing. Distinct = distinct case JSON.".into();
+    spec.rule = "generated: 2-40 knots, spacings 10^[-1.7,0] (ratio <= 50; one case in eight evenly spaced with h = 1, 1/2, 1/8 or arbitrary) inside [-10,10], real and complex ordinates in [-3,3] times a common factor 1, 10^[-9,3] or 10^[-40,-9] (the spline is linear in the ordinates: no absolute threshold may enter) (or samples of a random cubic for clamped / line for free whose coefficients carry individual factors 10^[-8,0]: gently curved data), random end slopes; one case in sixteen has exactly collinear ordinates on an evenly spaced dyadic grid with end slopes that agree with the line at neither, one or both ends; polynomial zero-tolerance argument 10^[-14,0] (a fifth of the cases above 1e-4, i.e. also larger than the smallest knot spacing) (the oracle gives it no allowance: it must not move the spline); invalid: < 2 points (one point, no points), mismatched lengths (ordinates one short, one or three too many, one knot short), a decreasing knot pair, evaluation outside the range. Oracle: independent spline from a dense LU solve of the second-derivative system; on every interval values and slopes at both end knots (from inside) and 8 interior points within 64 eps (K(x) + g h^2), K the magnitude of the terms of the piece expanded in powers of x, g the decayed rounding scale of the second derivatives,, interpolation, continuity of the recovered second derivative across knots, zero end curvature (free) / prescribed end slopes (clamped), cubic/line reproduction; Err outside the range (evaluate and evaluate_derivative probed separately, both sides) and for the invalid class. Non-trivial = >= 4 knots with non-uniform spacing. Distinct = distinct case JSON.".into();
     spec.max_shrink_iters = 1500;
     run_spec(spec, opts)
 }
